@@ -99,6 +99,10 @@ class Interp:
         _counter[0] += 1
         self.dir = os.path.join(f'{SCRATCH}-{os.getpid()}',
                                 f'wf{_counter[0]}')
+        if os.path.exists(self.dir):
+            # (left behind by a dead process that had this pid)
+            import shutil
+            shutil.rmtree(self.dir, ignore_errors=True)
         os.makedirs(self.dir)
         self.file = os.path.join(self.dir, 'world.json')
         it = self
